@@ -153,6 +153,7 @@ func (s *KeyStore) pushNewRingState(ring *KeyRing) error {
 const (
 	keyringSuffix = ".keyring"
 	newSuffix     = ".new"
+	staleSuffix   = ".stale"
 )
 
 func (s *KeyStore) fetchASNring(path string) ([]byte, error) {
@@ -167,6 +168,15 @@ func (s *KeyStore) pushASNring(data []byte, path string) (err error) {
 	curPath := path + keyringSuffix
 	newPath := path + keyringSuffix + newSuffix
 	err = s.fs.Put(newPath, data)
+	if err == backend.ErrExist {
+		// An earlier update of this ring was interrupted after the new state was written but before
+		// it replaced the current one. Writers hold the exclusive store lock, so that file belongs
+		// to nobody: move it out of the way and write ours.
+		err = s.fs.Rename(newPath, newPath+staleSuffix)
+		if err == nil {
+			err = s.fs.Put(newPath, data)
+		}
+	}
 	if err != nil {
 		return err
 	}
